@@ -43,7 +43,7 @@ VARIABLES st,         \* st[c] \in {"idle","run","between","failing","ok","faile
           late,       \* calls started since stop became true
           lateMax,    \* how many such late starts the thread pool may still commit
           intr,       \* a KeyboardInterrupt reached the calling thread
-          phase,      \* "running" | "returned" | "raised" | "interrupted"
+          phase,      \* "running" | "returned" | "raised" | "interrupted" | "aborted" (environment fault)
           reported    \* the call named by the raised CallError (0 = none)
 
 svars == <<st, att, errors, first, stop, late, lateMax, intr, phase, reported>>
@@ -62,7 +62,7 @@ TypeOK ==
   /\ first \in Calls \cup {0}
   /\ stop \in BOOLEAN /\ intr \in BOOLEAN
   /\ late \in 0..(W + 1) /\ lateMax \in 0..W
-  /\ phase \in {"running", "returned", "raised", "interrupted"}
+  /\ phase \in {"running", "returned", "raised", "interrupted", "aborted"}
   /\ reported \in Calls \cup {0}
 
 InitState ==
@@ -172,6 +172,12 @@ InterruptE ==
 
 ReturnE == phase' = "returned" /\ UNCHANGED <<st, att, errors, first, stop, late, lateMax, intr, reported>>
 RaiseE(c) == phase' = "raised" /\ reported' = c /\ UNCHANGED <<st, att, errors, first, stop, late, lateMax, intr>>
+\* environment fault: a worker thread could not be started; that error propagates out of run
+AbortG == <<
+  <<"abort_running_phase", phase = "running">>,
+  <<"abort_quiescent", Occupied = {}>> >>
+AbortE == phase' = "aborted" /\ UNCHANGED <<st, att, errors, first, stop, late, lateMax, intr, reported>>
+
 KbIntE == phase' = "interrupted" /\ UNCHANGED <<st, att, errors, first, stop, late, lateMax, intr, reported>>
 
 \* ---- actions -------------------------------------------------------------
